@@ -474,9 +474,9 @@ package ion
 //@ modifies nothing
 //@ ensures[C13] r.valueType != IntType ==> err != nil && result == nil
 //@ ensures[C13] r.valueType == IntType && r.value == nil ==> err == nil && result == nil
-//@ ensures[C13] r.valueType == IntType && vcIsInt64(r.value) ==> err == nil && result != nil && *result == vcAsInt64(r.value)
-//@ ensures[C13] r.valueType == IntType && vcIsBigInt(r.value) && vcAsBigInt(r.value).IsInt64() ==> err == nil && result != nil && *result == vcAsBigInt(r.value).Int64()
-//@ ensures[C13] r.valueType == IntType && vcIsBigInt(r.value) && !vcAsBigInt(r.value).IsInt64() ==> err != nil && result == nil
+//@ ensures[C13,C17] r.valueType == IntType && vcIsInt64(r.value) ==> err == nil && result != nil && *result == vcAsInt64(r.value)
+//@ ensures[C13,C17] r.valueType == IntType && vcIsBigInt(r.value) && vcAsBigInt(r.value).IsInt64() ==> err == nil && result != nil && *result == vcAsBigInt(r.value).Int64()
+//@ ensures[C13,C17] r.valueType == IntType && vcIsBigInt(r.value) && !vcAsBigInt(r.value).IsInt64() ==> err != nil && result == nil
 //@ safe[C06,C13]
 
 //@ func (*reader).IntValue
